@@ -561,4 +561,115 @@ example : recoveredAt "module" "module" 2 1 10 9 = .ok false ∧ recoveredAt "mo
     recoveredAt "module" "module" 1 1 (7/2) 3 = .ok false ∧ recoveredAt "module" "module" 1 1 (7/2) 4 = .ok true := by
   refine ⟨by decide +kernel, by decide +kernel, by decide +kernel, by decide +kernel⟩
 
+/-! ### Round 5: user overrides of a parameter whose default is a time parameter -/
+
+/-- `Pars.update` (regenerated dispatch + `atomic_classes`): a parameter whose current value is a time parameter is merged by
+    `_update_timepar`, not overwritten directly -/
+theorem C16_timepar_default_goes_through_update_timepar :
+    updHandler Gen.updDispatch Gen.updAtomic = "_update_timepar" := by decide
+
+/-- `Pars._update_timepar` (regenerated branch table): a plain number / a list is SET INSIDE the default (class and unit kept),
+    a time parameter replaces it -/
+theorem C16_override_actions :
+    updAction Gen.updBranches "Number" = "set" ∧ updAction Gen.updBranches "list" = "set*" ∧
+    updAction Gen.updBranches "TimePar" = "replace" := by
+  refine ⟨by decide, by decide, by decide⟩
+
+/-- the default a plain declaration creates, for any canonical unit (including no unit) -/
+theorem declare_plain (k : Kind) (v : Val Rat) {u : UnitT} (hnu : canonUnit u = .ok u) :
+    declare Gen.wrapLost .plain k v u = .ok ⟨k, v, u, none, none, some 1, none, none, false⟩ := by
+  have hv := validateUnits_of (a := (⟨k, v, u, none, none, some 1, none, none, false⟩ : TP Rat)) (u := u) (pu := none) hnu rfl
+  unfold declare declUnitReaching
+  simp only [mk, hv]
+
+/-- `old.set(x, unit)` on a fresh default = the declaration of `x` with that unit (or the default's, if none is given) -/
+theorem setDefault_fresh (k : Kind) (v0 : Val Rat) (x : Rat) (u nu : UnitT) (hnu : canonUnit (orElse nu u) = .ok (orElse nu u)) :
+    setDefault ⟨k, v0, u, none, none, some 1, none, none, false⟩ (.scalar x) nu =
+      .ok (.tp ⟨k, .scalar x, orElse nu u, none, none, some 1, none, none, false⟩) := by
+  have hv := validateUnits_of (a := (⟨k, .scalar x, orElse nu u, none, none, some 1, none, none, false⟩ : TP Rat)) (u := orElse nu u) (pu := none) hnu rfl
+  unfold setDefault setPars
+  simp only [Option.getD, orElse, Bool.or_self, Bool.false_eq_true, if_false]
+  simp only [orElse] at hv
+  rw [hv]
+
+/-- **A plain-number override is a declaration**: `Cls(par=x)` for a parameter declared `ss.<kind>(v0, unit=u)` is, after
+    `init_time`, exactly the object `ss.<kind>(x, unit=u)` would have been — for every kind (beta, rate, dur, …), unit and
+    module timeline.  All declaration theorems (`C16_declared_*`) therefore apply to overridden parameters. -/
+theorem C16_override_number_is_declaration (k : Kind) (v0 : Val Rat) (x : Rat) {u : UnitT} (hnu : canonUnit u = .ok u)
+    (pu : UnitT) (pdt : Option Rat) (b : Bool) :
+    overrideInit Gen.updBranches k v0 u (.number x) pu pdt b =
+      (declareInit Gen.wrapLost .plain k (.scalar x) u pu pdt b).map Par.tp := by
+  unfold overrideInit declareInit
+  rw [declare_plain k v0 hnu, declare_plain k (.scalar x) hnu]
+  simp only [mergeTimepar]
+  rw [if_pos C16_override_actions.1, setDefault_fresh k v0 x u none (by simpa [orElse] using hnu)]
+  simp only [parInit, orElse]
+  split <;> rfl
+
+/-- the same for the list form `par=[x, unit]`: the declaration of `x` in the GIVEN unit -/
+theorem C16_override_list_is_declaration (k : Kind) (v0 : Val Rat) (x : Rat) {u : UnitT} {nu : String} (hnu : canonUnit u = .ok u)
+    (hnn : canonUnit (some nu) = .ok (some nu)) (pu : UnitT) (pdt : Option Rat) (b : Bool) :
+    overrideInit Gen.updBranches k v0 u (.list x (some nu)) pu pdt b =
+      (declareInit Gen.wrapLost .plain k (.scalar x) (some nu) pu pdt b).map Par.tp := by
+  unfold overrideInit declareInit
+  rw [declare_plain k v0 hnu, declare_plain k (.scalar x) hnn]
+  simp only [mergeTimepar]
+  rw [if_pos C16_override_actions.2.1, setDefault_fresh k v0 x u (some nu) (by simpa [orElse] using hnn)]
+  simp only [parInit, orElse]
+  split <;> rfl
+
+/-- **A rate given as a plain number (waning, shedding, decay, …) for a default declared in unit `u`**: the amount applied per
+    step is `x · step length / unit` -/
+theorem C16_override_rate_per_step (v0 : Val Rat) (x : Rat) {u pu : String} {lu lpu p : Rat}
+    (hlu : unitLen u = some lu) (hlpu : unitLen pu = some lpu) (hp0 : p ≠ 0)
+    (hnu : canonUnit (some u) = .ok (some u)) (hnpu : canonUnit (some pu) = .ok (some pu)) :
+    (overrideInit Gen.updBranches .rate v0 (some u) (.number x) (some pu) (some p) true).bind Par.perStep =
+      .ok (.scalar (x * ((p * lpu) / lu))) := by
+  rw [C16_override_number_is_declaration .rate v0 x hnu]
+  obtain ⟨⟨t', h, _, _, _, hv⟩, hx⟩ := C16_declared_rate_per_step .plain (.scalar x) hlu hlpu hp0 hnu hnpu
+  rw [h]
+  simp only [Except.map, Except.bind, Par.perStep, hv, Val.map, hx]
+
+/-- **… and for a default declared WITHOUT a unit** (`ss.rate(0.05)`: per unit of the module): per step `x · dt` -/
+theorem C16_override_rate_default_unit_per_step (v0 : Val Rat) (x : Rat) {pu : String} {lpu p : Rat}
+    (hlpu : unitLen pu = some lpu) (hp0 : p ≠ 0) (hnpu : canonUnit (some pu) = .ok (some pu)) :
+    (overrideInit Gen.updBranches .rate v0 none (.number x) (some pu) (some p) true).bind Par.perStep =
+      .ok (.scalar (x / ((1 / p) * (lpu / lpu)))) ∧ x / ((1 / p) * (lpu / lpu)) = x * p := by
+  constructor
+  · rw [C16_override_number_is_declaration .rate v0 x (u := none) rfl]
+    unfold declareInit
+    rw [declare_plain .rate (.scalar x) (u := none) rfl]
+    simp only [init, Option.isSome, Bool.and_false, Bool.false_eq_true, if_false]
+    rw [updateCached_rate (u := pu) (pu := pu) (s := 1) (p := p) (lu := lpu) (lpu := lpu) _ rfl rfl rfl rfl rfl hlpu hlpu hp0 one_ne_zero]
+    simp only
+    rw [validateUnits_of (u := some pu) (pu := some pu) hnpu hnpu]
+    rfl
+  · have := ne_of_gt (unitLen_pos hlpu)
+    field_simp
+
+/-- **A duration given as a plain number**: steps × step length = the number in the default's unit -/
+theorem C16_override_duration_steps (v0 : Val Rat) (x : Rat) {u pu : String} {lu lpu p : Rat}
+    (hlu : unitLen u = some lu) (hlpu : unitLen pu = some lpu) (hp0 : p ≠ 0)
+    (hnu : canonUnit (some u) = .ok (some u)) (hnpu : canonUnit (some pu) = .ok (some pu)) :
+    ∃ n : Rat, (overrideInit Gen.updBranches .dur v0 (some u) (.number x) (some pu) (some p) true).bind Par.perStep = .ok (.scalar n) ∧
+      n * (p * lpu) = x * lu := by
+  rw [C16_override_number_is_declaration .dur v0 x hnu]
+  obtain ⟨⟨t', h, _, _, _, hv⟩, hx⟩ := C16_declared_duration_steps .plain (.scalar x) hlu hlpu hp0 hnu hnpu
+  refine ⟨x * ((1 / p) * (lu / lpu)), ?_, hx x⟩
+  rw [h]
+  simp only [Except.map, Except.bind, Par.perStep, hv, Val.map]
+
+/-- sensitivity to the regenerated table: if the `Number` branch stored the value itself (`self[key] = new`), a waning of
+    1/10 per year in a module stepping a quarter of a year would be applied as 1/10 PER STEP instead of 1/40 -/
+theorem C16_override_raw_number_is_wrong :
+    (overrideInit [("TimePar", "replace"), ("Number", "replace")] .rate (.scalar (1/20)) (some "year") (.number (1/10)) (some "year") (some (1/4)) true).bind Par.perStep
+      = .ok (.scalar (1/10)) ∧
+    (overrideInit Gen.updBranches .rate (.scalar (1/20)) (some "year") (.number (1/10)) (some "year") (some (1/4)) true).bind Par.perStep
+      = .ok (.scalar (1/40)) := by
+  refine ⟨by decide +kernel, by decide +kernel⟩
+
+/-- non-vacuity: a list override `[2, 'day']` of a rate declared per year, in a weekly module: 14 per step -/
+example : (overrideInit Gen.updBranches .rate (.scalar 1) (some "year") (.list 2 (some "day")) (some "week") (some 1) true).bind Par.perStep
+    = .ok (.scalar 14) := by decide +kernel
+
 end StarsimModel.C16
